@@ -37,12 +37,19 @@ class App(protocol.Protocol):
         self.lost += 1
 
 
+class HelloApp(App):
+    """an application protocol that speaks first (as TLS or HTTP clients do): it writes when its connection is made"""
+    def connectionMade(self):
+        self.transport.write(b"H")
+
+
 class AppFactory(protocol.Factory):
-    def __init__(self):
+    def __init__(self, hello=False):
         self.built = []
+        self.hello = hello
 
     def buildProtocol(self, addr):
-        p = App()
+        p = HelloApp() if self.hello else App()
         self.built.append(p)
         return p
 
@@ -86,13 +93,14 @@ def stream_for(scen):
 
 
 class Run(object):
-    def __init__(self, scen):
+    def __init__(self, scen, hello=False):
         self.scen = scen
+        self.hello = hello
         self.mrep, self.rep, self.appbytes = stream_for(scen)
         self.stream = self.mrep + self.rep + self.appbytes
         self.pos = 0
         self.ep = FakeProxyEndpoint()
-        self.appf = AppFactory()
+        self.appf = AppFactory(hello)
         self.fired = []
         self.exc = False
         self.appw = 0
@@ -142,6 +150,12 @@ class Run(object):
         tail = out[3:]
         if self.appw:
             appw = len(tail) - len(tail.rstrip(b"W"))
+        if self.hello and app is not None:
+            # the application's own first write follows the complete SOCKS request (nothing of it goes out earlier)
+            body = tail.rstrip(b"W")
+            if not body.endswith(b"H") or body.count(b"H") != 1:
+                self.exc = True
+                self.errors.append("the application's first write is not right after the SOCKS request: %r" % out[:40])
         done = dict(k="p", ek="", n=len(self.fired))
         if self.fired:
             v = self.fired[0]
@@ -211,8 +225,8 @@ class Run(object):
         return self.obs()
 
 
-def replay(scen, script):
-    run = Run(scen)
+def replay(scen, script, hello=False):
+    run = Run(scen, hello)
     steps = []
     for e in script:
         s = dict(e)
@@ -220,7 +234,7 @@ def replay(scen, script):
         steps.append(s)
         if s["obs"]["exc"]:
             break       # the connection was dropped after the exception; nothing more can happen on it
-    return dict(scen=scen, steps=steps, errors=run.errors[:2])
+    return dict(scen=scen, steps=steps, hello=bool(hello), errors=run.errors[:2])
 
 
 def total(scen):
